@@ -123,18 +123,27 @@ def native_checks(run, n_cases):
     run.bounded.append({"what": "native construction of named vectors/covariances with random names and keyword subsets; unknown name; wrong shape", "bound": f"{n_cases} random argument lists of 0-6 names x 2 kinds", "failures": len(fails), "counted_as_proved": False})
 
 
-def native_renaming(run, n_models):
+def native_renaming(run, n_models, only_styles=None):
     """Metamorphic: rename a model's symbols (permuting the layout) and compare every named output of the real filter."""
     import sympy
 
     fails = 0
     for t in range(n_models):
+        if only_styles is not None and t % 3 not in only_styles:
+            continue
         sc = scenarios.Scenario(3, 1, 2, [2], seed=run.seed + t)
         py, ekf = scenarios.build_ekf(sc)
         pt = sc.point(t)
         rng = random.Random(run.seed + t)
         allsyms = sc.state + sc.calibration + sc.control
-        new_names = [f"{rng.choice('qQzZaAmM')}{rng.randint(0, 99)}_{i}" for i in range(len(allsyms))]
+        # spellings: random mixed-case names; sympy's default cse temporaries (x0, x1, ...); the library's own temporaries (_t0, ...)
+        style = t % 3
+        if style == 0:
+            new_names = [f"{rng.choice('qQzZaAmM')}{rng.randint(0, 99)}_{i}" for i in range(len(allsyms))]
+        else:
+            order = list(range(len(allsyms)))
+            rng.shuffle(order)
+            new_names = [f"{'x' if style == 1 else '_t'}{j}" for j in order]
         ren = {s: sympy.Symbol(nn) for s, nn in zip(allsyms, new_names)}
         sc2 = scenarios.Scenario(3, 1, 2, [2], seed=run.seed + t)
         sc2.state = [ren[s] for s in sc.state]
@@ -265,8 +274,11 @@ def check(run):
             else:
                 run.undecided.append(f.obligation)
         run.findings[:] = keep
+    # renaming runs: thorough 6 models (all three spelling styles twice); quick 2 (the two temporary-like spellings)
     if run.tier == "thorough":
-        native_renaming(run, 3)
+        native_renaming(run, 6)
+    else:
+        native_renaming(run, 3, only_styles=(1, 2))
 
 
 def replay_file(payload):
